@@ -61,4 +61,18 @@ def St.outCI (s : St) (v : Nat) : CI :=
 def St.outEdgesFront (s : St) (v : Nat) : List Nat := CI.drain (s.follow outStep) (s.outCI v) s.nE
 def St.outEdgesBack (s : St) (v : Nat) : List Nat := CI.drainBack (s.follow outStepBack) (s.outCI v) s.nE
 
+/-- the call pattern of the harness' mixed drain: call number `i` is `next()` when `i % 3 = 0`,
+    `next_back()` otherwise -/
+def mixPattern (i : Nat) : Bool := i % 3 == 0
+
+/-- both ends in turn (pattern `mixPattern`, starting with call number `i`) until the first `None` -/
+def CI.drainMixed (step back : Nat → Nat) : CI → Nat → Nat → List Nat
+  | _, 0, _ => []
+  | c, fuel + 1, i =>
+    match (if mixPattern i then c.next step else c.nextBack back) with
+    | (c', some r) => r :: CI.drainMixed step back c' fuel (i + 1)
+    | (_, none) => []
+
+def St.hullIterMixed (s : St) : List Nat := CI.drainMixed s.nxt s.prv s.hullCI (s.nE + 1) 0
+
 end Spade
